@@ -10,14 +10,12 @@
 From Amgcl Require Import Scalar Vec Crs Kernels KernelsProofs NcRing.
 Local Open Scope S_scope.
 
-Ltac ncr := non_commutative_ring.
-
 Section NcKernels.
 Context {S : Scalar}.
 Local Notation vec := (vec S).
 Hypothesis Hnc : ncring_theory S.
 Hypothesis Seqb : seqb_spec S.
-Local Instance nck : Ring (T:=S) := ncring_inst Hnc.
+Local Instance nck : NcRingInst S := ncring_inst Hnc.
 
 Lemma nc_is_zero_true (b : S) : is_zero b = true -> b = s0.
 Proof. unfold is_zero. apply Seqb. Qed.
